@@ -338,9 +338,28 @@ func genPaced(t *rapid.T) relayCase {
 	return c
 }
 
+// genLongGap: a stream that says something early (0.2 T after the connection is up), pauses for 0.85 T - less than the idle
+// time-out T, but ending later than T after the start - and goes on: the idle time-out counts from the last byte, not from
+// when a deadline was armed. T is 4 s: the pause keeps 600 ms distance to it.
+func genLongGap(t *rapid.T) relayCase {
+	const idle = 4000
+	c := relayCase{IdleMs: idle}
+	small := stream{Len: rapid.IntRange(0, 100).Draw(t, "small"), Chunks: []int{100}, GapUs: []int{0}, ReadSz: 4096}
+	long := stream{Len: 3 * 1000, Chunks: []int{1000}, GapUs: []int{idle * 200, idle * 850, 1000}, ReadSz: 4096}
+	if rapid.Bool().Draw(t, "backendstreams") {
+		c.Conns = []connCase{{C2B: small, B2C: long, Close: "both-half"}}
+	} else {
+		c.Conns = []connCase{{C2B: long, B2C: small, Close: "both-half"}}
+	}
+	return c
+}
+
 func genRelay(t *rapid.T) relayCase {
-	if rapid.IntRange(0, 9).Draw(t, "paced") == 0 {
+	switch rapid.IntRange(0, 14).Draw(t, "paced") {
+	case 0:
 		return genPaced(t)
+	case 1:
+		return genLongGap(t)
 	}
 	var c relayCase
 	n := rapid.SampledFrom([]int{1, 1, 2, 4, 8, 16}).Draw(t, "conns")
@@ -377,6 +396,9 @@ func TestRelay(t *testing.T) {
 		}
 		if c.IdleMs > 0 {
 			vh.Rec().Class("relay", "one_direction_streams_longer_than_the_idle_timeout")
+			if c.IdleMs == 4000 {
+				vh.Rec().Class("relay", "pause_of_0.85_idle_timeout_after_an_early_byte")
+			}
 		}
 		vh.Rec().Sample("relay", nt, func() interface{} { return c })
 	})
